@@ -59,6 +59,24 @@ func init() {
 			x.inputs = append(x.inputs, Input{Kind: "f64", Term: v})
 			return x.C.FFromBits(v)
 		},
+		// vFloat64NN: any bit pattern that is not a NaN.
+		"vFloat64NN": func(x *Exec, _ *ssa.Function, a []Value) Value {
+			v := x.newInput("f64nn", smt.BV(64))
+			x.inputs = append(x.inputs, Input{Kind: "f64", Term: v})
+			delete(x.C.NonNaN, v.ID)
+			x.assume(x.C.Not(x.C.FIsNaN(x.C.FFromBits(v))))
+			x.C.NonNaN[v.ID] = true
+			return x.C.FFromBits(v)
+		},
+		// vFloatOrd: any non-NaN double, carried by its integer order key so
+		// that comparison-only code is decided in integer arithmetic.
+		"vFloatOrd": func(x *Exec, _ *ssa.Function, a []Value) Value {
+			k := x.C.Var(fmt.Sprintf("in%d_key", len(x.inputs)), smt.Int)
+			f := x.C.FFromKey(k)
+			x.inputs = append(x.inputs, Input{Kind: "f64", Term: f})
+			x.assume(x.C.And(x.C.ILe(x.C.IntConst(smt.KeyNInf), k), x.C.ILe(k, x.C.IntConst(smt.KeyPInf))))
+			return f
+		},
 		// vGrid(w, s): k * 2^-s for a signed w-bit k. The tape carries the float bits.
 		"vGrid": func(x *Exec, _ *ssa.Function, a []Value) Value {
 			w := int(a[0].(*smt.Term).Int())
@@ -111,7 +129,11 @@ func init() {
 			return nil
 		},
 		"vSameBits": func(x *Exec, _ *ssa.Function, a []Value) Value {
-			return x.C.Eq(x.C.FBits(a[0].(*smt.Term)), x.C.FBits(a[1].(*smt.Term)))
+			p, q := a[0].(*smt.Term), a[1].(*smt.Term)
+			if smt.KeyBacked(p) && smt.KeyBacked(q) {
+				return x.C.Eq(x.C.FKey(p), x.C.FKey(q))
+			}
+			return x.C.Eq(x.C.FBits(p), x.C.FBits(q))
 		},
 		"vAnd": func(x *Exec, _ *ssa.Function, a []Value) Value {
 			var ts []*smt.Term
